@@ -4,8 +4,8 @@ import (
 	"fmt"
 	"math/rand/v2"
 	"runtime"
-	"sync/atomic"
 	"strings"
+	"sync/atomic"
 	"unicode/utf8"
 
 	"github.com/gdamore/tcell/v2"
